@@ -450,6 +450,20 @@ def run(ctx):
         # the false result: the function's own tail (after the loop) must be literally false
         tail = [l for l in leaves if const_eval(l) is False]
         ctx.ob("R19.2", site_key(fn, "falls through to false"), len(tail) >= 1, fn.where, "%d literal false result(s)" % len(tail))
+        # a descriptor that does not match must not decide the result: inside the loop over the descriptors the only value that may
+        # leave the function is `true` (otherwise an earlier partial-token descriptor hides a matching later one)
+        nret = 0
+        for lp in [l for l in fn.nodes("for")]:
+            for r in hirq.walk(lp["body"]):
+                if r.get("k") == "ret" and "e" in r and hirq.enclosing_closure(fn, r) is None:
+                    nret += 1
+                    ctx.ob("R19.2", site_key(fn, "only `true` leaves the descriptor loop", nret), const_eval(r["e"]) is True, line_of(r),
+                           "return %s inside the loop over the descriptors" % describe(r["e"]))
+            for b in hirq.walk(lp["body"]):
+                if b.get("k") == "break" and "e" in b:
+                    nret += 1
+                    ctx.ob("R19.2", site_key(fn, "only `true` leaves the descriptor loop", nret), const_eval(b["e"]) is True, line_of(b),
+                           "break with value %s inside the loop over the descriptors" % describe(b["e"]))
 
         # callers pass Event.name
         ncall = 0
